@@ -21,17 +21,18 @@ CLAUSES = {
 
 
 def model_check(ctx, shape, max_env, flagsets="CoreFlagSets", env="AllEnv", faults="AllFault",
-                invariants=None, properties=None, workers=NCPU, timeout=3600, contents="{0, 1}", profile="LeafProfile"):
+                invariants=None, properties=None, workers=NCPU, timeout=3600, contents="{0, 1}", profile="LeafProfile", alt=None):
     """Exhaustive TLC run of Repo.tla for one forest shape; raises CheckError if TLC finds a counterexample
     (a counterexample in the design is a defect of the specification or of the design, not yet a verdict
     about the code - see DESIGN.md section 5)."""
     d = ctx.spec_dir()
     inv = invariants or ["TypeInv", "KeyImpliesCert", "ConvergedAfterDefault", "Idempotent", "DefaultRunCompletes", "NoRefreshWithoutHash"]
     props = properties if properties is not None else ["KeysKept", "WriteErrIsFailure", "ChainOnRun"]
+    alt = alt or ("%sAlt" % SHAPES[shape] if env in ("IssuerEnv", "FullEnv") else "NoAlt")
     name = "MCRepo_%s_%d_%s_%s.cfg" % (shape, max_env, flagsets, env)
     with open(os.path.join(d, name), "w") as f:
-        f.write('CONSTANTS\n  Ents = {"r", "s", "l"}\n  Parent <- %sParent\n  Contents = %s\n  FlagSets <- %s\n'
-                '  EnvActs <- %s\n  FaultActs <- %s\n  UsesProfile <- %s\n  MaxEnv = %d\nINIT Init\nNEXT Next\n' % (SHAPES[shape], contents, flagsets, env, faults, profile, max_env))
+        f.write('CONSTANTS\n  Ents = {"r", "s", "l"}\n  Parent <- %sParent\n  AltParents <- %s\n  Contents = %s\n  FlagSets <- %s\n'
+                '  EnvActs <- %s\n  FaultActs <- %s\n  UsesProfile <- %s\n  MaxEnv = %d\nINIT Init\nNEXT Next\n' % (SHAPES[shape], alt, contents, flagsets, env, faults, profile, max_env))
         f.write("INVARIANTS %s\n" % " ".join(inv))
         if props:
             f.write("PROPERTIES %s\n" % " ".join(props))
@@ -129,7 +130,8 @@ def _short_act(a):
         if a["outcome"] != "ok":
             s += " fault=%s@%d%s" % (a["outcome"], a["k"], ("/" + a["cut"]) if a["cut"] else "")
         return s
-    return "%s(%s%s)" % (a["name"], a["e"], ("," + a["cut"]) if a["cut"] else ("," + str(a["c"])) if a["name"] == "Edit" else "")
+    return "%s(%s%s)" % (a["name"], a["e"], ("," + a["cut"]) if a["cut"] else ("," + str(a["c"])) if a["name"] == "Edit" else
+                         ("," + (a.get("p") or "none")) if a["name"] == "SetIssuer" else "")
 
 
 def _short_art(s):
@@ -141,7 +143,8 @@ def _short_art(s):
             continue
         out.append("%s:%s%s%s%s" % (e, "h%d" % a["hash"] if a["hash"] != 99 else "h-", ("c%d/%d%s" % (a["certc"], a["issc"], "+" if a["sigok"] else "!")) if a["cert"] else "",
                                      {"none": "", "key": "K", "csr": "R"}[a["key"]], ""))
-    return " ".join(out) + " cfg=" + "".join(str(s["cfgc"][e]) for e in sorted(s["cfgc"]))
+    return " ".join(out) + " cfg=" + "".join(str(s["cfgc"][e]) for e in sorted(s["cfgc"])) + \
+        " issuers=" + ",".join("%s<%s" % (e, s["par"][e] or "-") for e in sorted(s.get("par", {})))
 
 
 def sample_lines(lines, n=3):
@@ -173,7 +176,7 @@ def distinct_nontrivial(lines):
         a = l["act"]
         nontrivial = (a["name"] != "Run") or bool(a["plan"])
         if nontrivial:
-            seen.add(json.dumps([l["pre"]["art"], l["pre"]["cfgc"], l["pre"]["cfgNewer"], l["pre"]["issNewer"], a], sort_keys=True))
+            seen.add(json.dumps([l["pre"]["art"], l["pre"]["cfgc"], l["pre"]["cfgNewer"], l["pre"]["mt"], l["pre"]["par"], a], sort_keys=True))
     return len(seen)
 
 
